@@ -10,6 +10,7 @@ CONSTANTS
   Entries = {"run", "call", "evaluate"}
   TracerStyles = {"none"}
   Threadeds = {FALSE}
+  Givens = {}
   Flags = {"no_base_handler"}
 INVARIANT Restored
 INVARIANT Contained
